@@ -299,7 +299,7 @@ func loadCorpus(fset *token.FileSet, spec string, rng *rand.Rand) ([]*hx.Unit, i
 				n = n*10 + int(ch-'0')
 			}
 		}
-		if n > 0 && n < len(pkgs) {
+		if n > 0 && n < len(pkgs) && rng != nil {
 			rng.Shuffle(len(pkgs), func(i, j int) { pkgs[i], pkgs[j] = pkgs[j], pkgs[i] })
 			pkgs = pkgs[:n]
 			sort.Slice(pkgs, func(i, j int) bool { return pkgs[i].ID < pkgs[j].ID })
